@@ -8,6 +8,9 @@
   All statements hold for genomes of every size (induction over the trait, node and gene lists).
 -/
 import GoNeat.Proofs.PlainIO
+import GoNeat.Proofs.Codec
+import GoNeat.Model.RegistryCodec
+import GoNeat.Gen.Codec
 
 namespace GoNeat.C15
 open GoNeat.PlainIO
@@ -19,20 +22,8 @@ variable {F : Type}
     parameters, nodes with the same neuron type, activation type and trait pointer, genes with the same endpoints,
     weight, mutation number, innovation number, recurrent and enabled flags and trait pointer. -/
 theorem parse_render (C : Codec F) (hF : FloatsRoundTrip C) (hA : ActsRoundTrip C) (g : Genome F)
-    (h : WFio C g = true) : parse C (render C g) = .ok g := by
-  simp only [WFio, Bool.and_eq_true, decide_eq_true_eq, List.all_eq_true, beq_iff_eq, bne_iff_ne, ne_eq,
-    List.isEmpty_iff] at h
-  obtain ⟨⟨⟨⟨⟨htr, hndT⟩, hndN⟩, hnodes⟩, hgenes⟩, hmods⟩ := h
-  unfold parse render
-  simp only [parseLines, step_startLine]
-  rw [parseLines_append, parseLines_traits C hF g.traits {} (fun t ht => (htr t ht).1) (by simpa using hndT)]
-  simp only [List.nil_append]
-  rw [parseLines_append, parseLines_nodes C hA g.nodes _ (by simpa using hnodes) (by simpa using hndN)]
-  simp only [List.nil_append]
-  rw [parseLines_append, parseLines_genes C hF g.genes _ (by simpa using hgenes)]
-  simp only [List.nil_append, parseLines, step_endLine, St.toGenome]
-  cases g
-  simp_all
+    (h : WFio C g = true) : parse C (render C g) = .ok g :=
+  parse_render_aux C hF hA g h
 
 /-- the writer side: `WriteGenome` succeeds on such a genome (every activation type has a name) -/
 theorem write_ok (C : Codec F) (g : Genome F) (h : WFio C g = true) : write C g = .ok (render C g) := by
@@ -50,8 +41,8 @@ theorem write_ok (C : Codec F) (g : Genome F) (h : WFio C g = true) : write C g 
 
 /-- `ReadGenome(bytes, id)` of the written lines -/
 theorem readGenome_render (C : Codec F) (hF : FloatsRoundTrip C) (hA : ActsRoundTrip C) (g : Genome F)
-    (h : WFio C g = true) : readGenome C (render C g) g.id = .ok g := by
-  simp [readGenome, parse_render C hF hA g h]
+    (h : WFio C g = true) : readGenome C (render C g) g.id = .ok g :=
+  readGenome_render_aux C hF hA g h
 
 /-- **Organism wire form.** `UnmarshalBinary (MarshalBinary o)` restores fitness, generation, highest fitness,
     the champion-child flag and the genome. -/
@@ -163,5 +154,97 @@ theorem parsePop_renderPopCommented (C : Codec F) (hF : FloatsRoundTrip C) (hA :
   obtain ⟨i, hi⟩ := key cgs {} h rfl
   rw [hi]
   simp
+
+end GoNeat.C15
+
+/-! ## Part 2 — field maps of the YAML genome, the saved experiment (gob) and the fast-solver model (JSON)
+
+  yaml.v3 + cast, encoding/gob and encoding/json are trusted to hand back the value tree / value sequence they were
+  given; proved here is what the goNEAT code does around them (Model/Codec.lean). -/
+
+namespace GoNeat.C15
+open GoNeat.PlainIO GoNeat.Codec
+
+variable {F : Type}
+
+/-- **YAML genome round trip (modules included).** For every genome satisfying `WFyaml` the tree the YAML writer
+    builds is taken apart by the YAML reader into the same genome.  `WFyaml` asks of a module what the reader
+    rebuilds unconditionally: control node hidden, every module link weight `1.0`, not recurrent, no trait. -/
+theorem decGenome_encGenome [DecidableEq F] (C : Codec F) (hA : ActsRoundTrip C) (K : Consts F) (g : Genome F)
+    (h : WFyaml C K g = true) : decGenome C K (encGenome C g) = .ok g := by
+  simp only [WFyaml, Bool.and_eq_true, decide_eq_true_eq, List.all_eq_true, beq_iff_eq, bne_iff_ne, ne_eq] at h
+  obtain ⟨⟨⟨⟨⟨htr, hndT⟩, hndN⟩, hnodes⟩, hgenes⟩, hmods⟩ := h
+  have ht := decTraits_enc K g.traits [] (fun t ht => (htr t ht).1) (by simpa using hndT)
+  have hn := decNodes_enc C hA g.traits g.nodes [] hnodes (by simpa using hndN)
+  have hg := decGenes_enc g.traits g.nodes g.genes hgenes
+  have hm := decModules_enc C hA K g.traits g.nodes g.modules hmods
+  simp only [List.nil_append] at ht hn
+  cases g with
+  | mk id traits nodes genes modules =>
+    simp only at ht hn hg hm
+    cases modules with
+    | nil => simp [decGenome, encGenome, Codec.get, ht, hn, hg]
+    | cons m ms =>
+      simp only [List.map_cons] at hm
+      simp [decGenome, encGenome, Codec.get, ht, hn, hg, hm]
+
+/-- **Saved experiment round trip.** `Experiment.Decode` applied to the value sequence of `Experiment.Encode`
+    restores id, name, every trial, every generation (all thirteen fields) and every champion with its genome,
+    and consumes the whole stream — provided every generation has a champion with a genotype (`WFexp`). -/
+theorem decExp_encExp (C : Codec F) (hF : FloatsRoundTrip C) (hA : ActsRoundTrip C) (e : Experiment F)
+    (h : WFexp C e = true) : decExp C (encExp C e) = .ok (e, []) := by
+  simp only [WFexp, List.all_eq_true] at h
+  cases e with
+  | mk id name trials =>
+    have hn : ¬ ((trials.length : Int) < 0) := by omega
+    have := decTrials_enc C hF hA trials h []
+    simp only [List.append_nil] at this
+    simp [decExp, encExp, hn, this]
+
+/-- every statistic derived from the record (fitness, complexity, diversity, winner statistics are functions of
+    the restored fields) has the same value on the restored experiment -/
+theorem stats_restored {α : Type} (C : Codec F) (hF : FloatsRoundTrip C) (hA : ActsRoundTrip C) (e : Experiment F)
+    (h : WFexp C e = true) (stat : Experiment F → α) :
+    (decExp C (encExp C e)).toOption.map (fun r => stat r.1) = some (stat e) := by
+  rw [decExp_encExp C hF hA e h]; rfl
+
+/-- **Observation (known limit).** A generation WITHOUT champion is encoded without the organism block but decoded
+    with one: the last generation of a stream then fails with end-of-stream instead of being restored. -/
+theorem nil_champion_not_restored (C : Codec F) (g : Codec.Generation F) (h : g.champion = none) :
+    decGen C (encGen C g) = .error .eof := by
+  cases g with
+  | mk id executed solved fitness age complexity diversity winnerEvals winnerNodes winnerGenes duration trialId champion =>
+    simp only at h
+    subst h
+    simp [decGen, encGen, decOrg]
+
+/-- **Fast-solver model round trip.** `ReadFMNSModel` rebuilds from the written object the same counts, activation
+    types, bias list, connections (weights and signals) and modules. -/
+theorem decModel_encModel (C : Codec F) (hA : ActsRoundTrip C) (m : FastModel F) (h : WFmodel C m = true) :
+    decModel C (encModel C m) = .ok m := by
+  simp only [WFmodel, Bool.and_eq_true, decide_eq_true_eq, List.all_eq_true] at h
+  obtain ⟨⟨hs, hacts⟩, hmods⟩ := h
+  have ha := decActs_enc C hA m.acts hacts
+  have hl := decLinks_enc m.conns
+  have hb := Codec.decFloats_map m.biasList
+  have hm := decMods_enc C hA m.modules hmods
+  cases m with
+  | mk id name nInput nSensor nOutput nBias nTotal acts biasList conns modules =>
+    simp only at hs ha hl hb hm
+    subst hs
+    cases modules with
+    | nil => simp [decModel, encModel, Codec.get, getInt, getStr, getList, ha, hl, hb, decMods]
+    | cons md mds =>
+      simp only [List.map_cons] at hm
+      simp [decModel, encModel, Codec.get, getInt, getStr, getList, ha, hl, hb, hm]
+
+/-- … hence a solver computing identical outputs: the solver description C12's theorems are about
+    (`Fast.FastNet`) is the same, so every run of every operation script from every state gives the same
+    observations. -/
+theorem model_same_outputs [Scalar F] (C : Codec F) (hA : ActsRoundTrip C) (m : FastModel F) (h : WFmodel C m = true)
+    (σ : Nat → F → Option F) (ops : List (Fast.Op F)) (s : Fast.FState F) :
+    (decModel C (encModel C m)).toOption.map (fun m' => Fast.run m'.toFastNet σ ops s) =
+      some (Fast.run m.toFastNet σ ops s) := by
+  rw [decModel_encModel C hA m h]; rfl
 
 end GoNeat.C15
